@@ -40,7 +40,10 @@ impl RepairEval {
 }
 
 pub fn repair_eval_from<R: std::io::Read>(src: R, keys: &[usize], unauth: bool) -> RepairEval {
-    let r = guard(|| prog::repair_from(src, keys, unauth));
+    finish_eval(guard(|| prog::repair_from(src, keys, unauth)))
+}
+
+fn finish_eval(r: Result<Result<prog::RepairResult, (String, String)>, PanicInfo>) -> RepairEval {
     let res = match r {
         Err(p) => return RepairEval::Panic(p),
         Ok(Err((stage, msg))) => {
@@ -52,18 +55,23 @@ pub fn repair_eval_from<R: std::io::Read>(src: R, keys: &[usize], unauth: bool) 
     match read {
         Err(p) => RepairEval::OutputUnreadable(format!("normal reader panicked on the repaired archive: {}", p.sig())),
         Ok(Err(e)) => RepairEval::OutputUnreadable(e),
-        Ok(Ok(files)) => RepairEval::Done(Repaired {
+        Ok(Ok(mut files)) => RepairEval::Done(Repaired {
             end_reached: res.status_debug.contains("EndOfOriginalArchiveData"),
             status: res.status,
             status_debug: res.status_debug,
             unfinished: res.unfinished,
-            files,
+            files: {
+                files.remove(prog::PREPOPULATED);
+                files
+            },
         }),
     }
 }
 
+/// Repair of an in-memory byte string. The way the reader configuration reaches the requested mode, and
+/// whether the output writer already holds an entry, rotate with the input length (see `prog::repair`).
 pub fn repair_eval(bytes: &[u8], keys: &[usize], unauth: bool) -> RepairEval {
-    repair_eval_from(bytes, keys, unauth)
+    finish_eval(guard(|| prog::repair(bytes, keys, unauth)))
 }
 
 /// C02 soundness clauses 3-5 for a completed repair against the original files.
@@ -183,4 +191,25 @@ pub fn cli_repair_disagrees(exe: &std::path::Path, dir: &std::path::Path, input:
         // judged by the library-level check itself
         RepairEval::Panic(_) | RepairEval::OutputUnreadable(_) => None,
     }
+}
+
+/// An in-memory source that hands out at most `cap` bytes per read call (a legal `Read`).
+pub struct CapReader<'a> {
+    pub data: &'a [u8],
+    pub pos: usize,
+    pub cap: usize,
+}
+
+impl std::io::Read for CapReader<'_> {
+    fn read(&mut self, buf: &mut [u8]) -> std::io::Result<usize> {
+        let n = buf.len().min(self.cap.max(1)).min(self.data.len() - self.pos);
+        buf[..n].copy_from_slice(&self.data[self.pos..self.pos + n]);
+        self.pos += n;
+        Ok(n)
+    }
+}
+
+/// Repair from a source delivering at most `cap` bytes per read.
+pub fn repair_eval_capped(bytes: &[u8], keys: &[usize], unauth: bool, cap: usize) -> RepairEval {
+    finish_eval(guard(|| prog::repair_route(CapReader { data: bytes, pos: 0, cap }, keys, unauth, bytes.len())))
 }
